@@ -243,9 +243,14 @@ class E2EStream(Stream):
         ticks = [o[0] for o in obs["out"]]
         # the primary stream failed: the formula must go on from the fallback (all inputs were delivered
         # and the loop ran until everything blocked, so what can be computed has been computed)
-        if case["prim"]["closed"] and t_end is not None and not trig:
-            later = [t for t in B if t >= t_end + 2 * d and t in fm]
-            if later and not any(t >= t_end + 2 * d for t in ticks):
+        # The evaluation round that learns of the failure emits nothing and uses up the other term's sample
+        # of that round (start-up allowance): in step with the primary that is tick t_end + d, but when the
+        # other term STARTS after the primary's last sample (the first-run catch-up of A runs into the closed
+        # stream) it is the other term's first tick.  Only ticks after that round are demanded.
+        if case["prim"]["closed"] and t_end is not None and not trig and B:
+            lo = max(t_end + 2 * d, B[0] + d)
+            later = [t for t in B if t >= lo and t in fm]
+            if later and not any(t >= lo for t in ticks):
                 probs.append({"what": f"closed: nothing emitted after the primary stream failed at tick {t_end} although the "
                                       f"fallback and the other term deliver tick {later[0]}", "finding": None})
         for a, c in zip(ticks, ticks[1:]):
